@@ -399,6 +399,32 @@ pub fn gen_cfg(rng: &mut Rng, count: u64, _tier: &str) -> Vec<String> {
     out.push(line("cfg", &["tftpd".to_string()]));
     out.push(line("cfg", &[]));
     out.push(line("ccfg", &[]));
+    // a receive / send directory given explicitly is kept - also when it happens to be the working directory (the default of -d)
+    {
+        let cwd = std::env::current_dir().unwrap().to_str().unwrap().to_string();
+        let a = dirs[0].clone();
+        let v = |xs: &[&str]| -> Vec<String> { xs.iter().map(|x| x.to_string()).collect() };
+        for args in [
+            v(&["tftpd", "-d", &a, "-rd", &cwd]),
+            v(&["tftpd", "-rd", &cwd, "-d", &a]),
+            v(&["tftpd", "-d", &a, "-sd", &cwd]),
+            v(&["tftpd", "-sd", &cwd, "-d", &a]),
+            v(&["tftpd", "-d", &a, "-sd", &cwd, "-rd", &cwd]),
+            v(&["tftpd", "-rd", &a, "-sd", &a]),
+            v(&["tftpd", "-d", &cwd, "-rd", &a]),
+        ] {
+            out.push(line("cfg", &args));
+        }
+        // a numeric value that is no number is an error, whatever else is given
+        for bad in ["1.5", "abc", "", "-1", "1e3", " 5", "0x10"] {
+            out.push(line("cfg", &v(&["tftpd", "-d", &a, "-p", bad])));
+            out.push(line("cfg", &v(&["tftpd", "--duplicate-packets", bad, "-d", &a])));
+            for flag in ["-p", "-b", "-w", "-t"] {
+                out.push(line("ccfg", &v(&["f.bin", "-d", "-rd", &a, flag, bad])));
+                out.push(line("ccfg", &v(&[flag, bad, "f.bin", "-u"])));
+            }
+        }
+    }
     for k in 0..count {
         let client = k % 3 == 2;
         let gs = if client { client_groups(rng, &dirs) } else { server_groups(rng, &dirs) };
